@@ -147,7 +147,8 @@ PROPS = {
         "trusted": ["the harness's loopback servers (plain http and TLS with a certificate generated per run and handed to the binary as "
                     "SSL_CERT_FILE; per-URL behaviour; a listener that never answers for the git node), pseudo-terminal (typed-ahead "
                     "answer; for chains and trees a responder that answers each prompt by the URL it names), cache-file normalisation "
-                    "and the simulated damage / torn states (files written directly) (harness/remote.go); "
+                    "and the simulated damage / torn states (files written directly; the failure of the last cache write is REAL: the "
+                    "binary runs under a 512-byte file-size limit) (harness/remote.go); "
                     "SHA-256 collision resistance turns 'approved checksum' into 'approved content' (sha is uninterpreted in the model); "
                     "net/http fails a request at once when its context's deadline has passed (Chain.net2: observed on every chain case "
                     "in which node 1 stalls, not derived) and applies the client's CheckRedirect to every hop (observed on the TLS URL); "
@@ -172,7 +173,8 @@ PROPS = {
                       "no invariant between the cache files is needed any more (C20_trust, TrustStep in every state) -, and the stored "
                       "checksum was put there by an invocation, complete or killed, in which a prompt for exactly that checksum was "
                       "accepted or passed by --yes (ApprovedNow, C20_sum_approved, end to end: C20_trust_history; the rule without the "
-                      "recheck: C20_trust_norecheck_counterexample); unapproved new/changed content = 104, trace empty, cache untouched; "
+                      "recheck: C20_trust_norecheck_counterexample; an invocation whose .yaml write fails IS crash+damage: stateL_expand, "
+                      "C20_trust_limited); unapproved new/changed content = 104, trace empty, cache untouched; "
                       "plain http without --insecure = 105 before any cache or network access, and EVERY hop of a chain of redirects is "
                       "https unless --insecure (C20_http_hops; a refused hop gives no content: C20_http_hop_refused; fix R8-1); "
                       "--offline and any failed fetch (refused, HTTP error, refused redirect, timeout) run the usable cached copy "
